@@ -203,6 +203,12 @@ func NewWorld(seed int64, gorder []string, cfgs map[string]Cfg, asgs map[string]
 		Rng: rand.New(rand.NewSource(seed)), LagView: map[string]map[string]*v1.Node{}, Order: map[string][]string{}, curIdx: -1, lastGet: map[string]*v1.Node{}}
 	w.J = NewJournal()
 	w.J.CurG = w.curGroup
+	w.J.NowFn = func() int { return w.Now }
+	w.J.SlowFn = func() {
+		if !RealTime {
+			w.TickEnv()
+		}
+	}
 	w.AWS, w.EC2 = NewSimAWS(w.J)
 	w.AWS.ReadyK = 1 // a fleet that misses its readiness deadline does so with one instance already running (when it has more than one)
 	w.K = fake.NewSimpleClientset()
